@@ -519,6 +519,14 @@ def _faithful_histories(ctx, pk):
             if src:
                 texts = [["%import " + src[0][0]], ["%import " + e[0], "<%s/>" % nm], ["<%s/>" % nm], ["%import " + src[0][0], "<%s/>" % nm]]
                 hists.append((texts, [() for _ in texts]))
+        # directed: a command-line override that addresses a key of a type only an '%import' of this load brings (the loader sorts
+        # override paths by the schema it was created with: refused - the model follows the code, listed under C14), then the same
+        # load without the override
+        for e in twins[:1]:
+            nm = e[1][0].name
+            texts = [["%import " + e[0], "<%s>" % nm, "</%s>" % nm], ["%import " + e[0], "<%s>" % nm, "</%s>" % nm]]
+            hists.append((texts, [("%s/twin=ov" % nm,), ()]))
+            ctx.count("faithful:directed:override-into-imported-type")
         # directed: a load that first names a component the SCHEMA itself imports (nothing to add) and then a new one - the new
         # one must still go into a private copy; afterwards its types are used without importing them
         for sname in list(sd.imports)[:2]:
